@@ -210,7 +210,23 @@ type Endpoint struct {
 	ShutdownDelay time.Duration
 	// unreachable destinations: a packet write towards them fails like sendto() with EHOSTUNREACH
 	unreachable map[string]bool
+	sendErr     map[string]error
 	SendErrors  int
+}
+
+// SetSendError makes packet writes of this endpoint towards dst fail with exactly err (nil: succeed again). A
+// *net.OpError with Op "write" is what a socket reports for the peer's side; any other error is a local problem.
+func (e *Endpoint) SetSendError(dst string, err error) {
+	e.mu.Lock()
+	defer e.mu.Unlock()
+	if e.sendErr == nil {
+		e.sendErr = map[string]error{}
+	}
+	if err == nil {
+		delete(e.sendErr, dst)
+	} else {
+		e.sendErr[dst] = err
+	}
 }
 
 // SetUnreachable makes packet writes of this endpoint towards dst fail with a write error (or succeed again).
@@ -306,10 +322,16 @@ func (e *Endpoint) WriteToAddress(b []byte, a memberlist.Address) (time.Time, er
 		e.net.emit(Event{Kind: "pkt-after-shutdown", Src: e.addr, Dst: a.Addr, Data: append([]byte(nil), b...)})
 		return now, &net.OpError{Op: "write", Net: "udp", Err: errors.New("use of closed network connection")}
 	}
+	if serr := e.sendErr[a.Addr]; serr != nil {
+		e.SendErrors++
+		e.mu.Unlock()
+		e.net.emit(Event{Kind: "pkt-send-error", Src: e.addr, Dst: a.Addr, Data: append([]byte(nil), b...), Note: serr.Error()})
+		return now, serr
+	}
 	if e.unreachable[a.Addr] || e.net.hostUnreachable(a.Addr) {
 		e.SendErrors++
 		e.mu.Unlock()
-		e.net.emit(Event{Kind: "pkt-send-error", Src: e.addr, Dst: a.Addr})
+		e.net.emit(Event{Kind: "pkt-send-error", Src: e.addr, Dst: a.Addr, Data: append([]byte(nil), b...)})
 		return now, &net.OpError{Op: "write", Net: "udp", Err: errors.New("sendto: no route to host")}
 	}
 	e.mu.Unlock()
